@@ -52,6 +52,7 @@ type cloud struct {
 	counter    uint64
 	foreign    []string // requests that named a key of another region
 	secrets    [][]byte // copies of every data-key plaintext the endpoints produced (needles of the log scan)
+	failShape  string   // "", "deadline", "canceled", "wrapped-deadline": see failure()
 	logs       []string // what the plugins logged (a logger is installed by awsSpace)
 }
 
@@ -90,6 +91,20 @@ func (c *cloud) open(region string, blob []byte) ([]byte, error) {
 }
 
 var errFakeKMS = errors.New("fake kms: injected regional failure")
+
+// failure returns the error a failing region answers with. The shape is a dimension of its own: an opaque service
+// error, or a client-side timeout / cancellation of that one regional request (the caller's own context is still live).
+func (c *cloud) failure() error {
+	switch c.failShape {
+	case "deadline":
+		return context.DeadlineExceeded
+	case "canceled":
+		return context.Canceled
+	case "wrapped-deadline":
+		return fmt.Errorf("operation error KMS: request timed out: %w", context.DeadlineExceeded)
+	}
+	return errFakeKMS
+}
 
 type cloudLogger struct{ c **cloud }
 
@@ -138,7 +153,7 @@ func (c *cloud) generate(region, arn string) ([]byte, []byte, error) {
 	defer c.mu.Unlock()
 	c.calls = append(c.calls, "gen:"+region)
 	if c.genFail[region] {
-		return nil, nil, errFakeKMS
+		return nil, nil, c.failure()
 	}
 	c.counter++
 	pt := sha256.Sum256([]byte(fmt.Sprintf("data-key-%d", c.counter)))
@@ -168,7 +183,7 @@ func (c *cloud) encrypt(region string, pt []byte) ([]byte, error) {
 		}
 	}
 	if c.encFail[region] {
-		return nil, errFakeKMS
+		return nil, c.failure()
 	}
 	return c.seal(region, pt), nil
 }
@@ -179,7 +194,7 @@ func (c *cloud) decrypt(region string, blob []byte) ([]byte, error) {
 	c.calls = append(c.calls, "dec:"+region)
 	switch c.decState[region] {
 	case 1:
-		return nil, errFakeKMS
+		return nil, c.failure()
 	case 2:
 		w := sha256.Sum256(append([]byte("wrong"), blob...))
 		p := append([]byte(nil), w[:]...)
@@ -595,6 +610,7 @@ func awsSpace(r *Report, prop string, maxN int) {
 	}
 	if prop == "C17" {
 		awsMapOrders(r, maxN, fail)
+		awsErrorShapes(r, maxN, fail)
 	}
 	if prop == "C17" || prop == "C10" {
 		awsAEADFaults(r, maxN, fail)
@@ -699,6 +715,63 @@ func awsAEADFaults(r *Report, maxN int, fail func(p, sig, ops, format string, a 
 	r.TracesValidated += n0
 	r.Transitions += int64(n0)
 	r.Counters["aws-aead-fault-cases"] += n0
+}
+
+// awsErrorShapes: a regional failure may look like a timeout or a cancellation of that one request. Whatever it looks
+// like, the other regions are still tried: for every n >= 2, preferred region, plugin and shape, each single region in
+// turn fails GenerateDataKey and Encrypt (wrap) or Decrypt (unwrap) with that shape; wrapping and unwrapping succeed
+// through the remaining regions.
+func awsErrorShapes(r *Report, maxN int, fail func(p, sig, ops, format string, a ...interface{})) {
+	n0 := 0
+	sk := []byte("system-key-bytes-32-bytes-long!!")
+	for n := 2; n <= maxN; n++ {
+		regions := c17Regions[:n]
+		for _, preferred := range regions {
+			for _, ver := range []string{"v1", "v2"} {
+				for _, shape := range []string{"deadline", "canceled", "wrapped-deadline"} {
+					for _, bad := range regions {
+						c := newCloud()
+						p, err := buildPlugin(ver, c, regions, preferred)
+						if err != nil {
+							continue
+						}
+						tag := fmt.Sprintf("n=%d preferred=%s %s shape=%s failing=%s", n, preferred, ver, shape, bad)
+						c.failShape = shape
+						c.genFail[bad], c.encFail[bad] = true, true
+						env, err := p.EncryptKey(ctx, append([]byte(nil), sk...))
+						n0++
+						if err != nil {
+							fail("C17", "wrap-gives-up-on-"+shape+":"+ver, tag, "%s: EncryptKey failed although %d other region(s) can generate a data key: %v (calls %v)", tag, n-1, err, c.calls)
+							continue
+						}
+						var ej envJSON
+						if jerr := json.Unmarshal(env, &ej); jerr != nil || len(ej.KMSKeks) != n-1 {
+							fail("C17", "wrap-entries-on-"+shape+":"+ver, tag, "%s: the envelope has %d entries, want %d (every region but the failing one)", tag, len(ej.KMSKeks), n-1)
+						}
+						c.genFail[bad], c.encFail[bad] = false, false
+						// unwrap: each region that has an entry fails Decrypt in turn with that shape
+						for _, down := range regions {
+							if down == bad {
+								continue
+							}
+							c.reset()
+							c.decState[down] = 1
+							out, derr := p.DecryptKey(ctx, env)
+							c.decState[down] = 0
+							n0++
+							if n-1 >= 2 && (derr != nil || !bytes.Equal(out, sk)) {
+								fail("C17", "unwrap-gives-up-on-"+shape+":"+ver, tag, "%s: DecryptKey failed when %s answered with a %s although another region with an entry can decrypt: %v (calls %v)", tag, down, shape, derr, c.calls)
+							}
+						}
+					}
+				}
+			}
+		}
+	}
+	r.Evaluations += n0
+	r.TracesValidated += n0
+	r.Transitions += int64(n0)
+	r.Counters["aws-error-shape-cases"] += n0
 }
 
 // awsMapOrders: the plugins build their clients by ranging over the region -> ARN map, whose iteration order Go leaves
